@@ -198,7 +198,98 @@ impl Leg for Cold {
     }
 }
 
+/// raw bytes 0x00-0x03 (pre-encoded bases for the lookup table) may occur: the clause that needs no definition
+/// of a base - the second component of every pair is the reverse complement of the first, codes < 4^k
+pub struct RawPairs;
+impl Leg for RawPairs {
+    type Case = SeqCase;
+    const NAME: &'static str = "raw-bytes-pairs";
+    fn strategy(tier: Tier) -> BoxedStrategy<SeqCase> {
+        (Seqs::strategy(tier), proptest::collection::vec((any::<u16>(), 0u8..=3), 1..=8))
+            .prop_map(|(mut c, ins)| {
+                for (p, b) in ins {
+                    if !c.seq.0.is_empty() {
+                        let i = crate::util::idx16(p, c.seq.0.len());
+                        c.seq.0[i] = b;
+                    }
+                }
+                c
+            })
+            .boxed()
+    }
+    fn check(c: &SeqCase) -> Verdict {
+        let mut v = Verdict::new();
+        v.class("raw-bytes-0-3");
+        let items: Vec<(u64, u64)> = KmerGenerator::new(&c.seq, c.k).collect();
+        v.nontrivial = !items.is_empty() && c.seq.iter().any(|&b| b < 4);
+        for (i, (f, r)) in items.iter().enumerate() {
+            if *f >= model::pow4(c.k) {
+                v.fail("code-out-of-range", format!("item {}: {} >= 4^{}", i, f, c.k));
+                return v;
+            }
+            let m = model::rc_code(*f, c.k);
+            if *r != m {
+                v.fail("pair-not-revcomp", format!("with raw bytes 0x00-0x03 in the input, item {}: pair ({}, {}) but the reverse complement of the first is {} (k={})", i, f, r, m, c.k));
+                return v;
+            }
+        }
+        v
+    }
+}
+
+/// pykmertools: to_acgt called on the iterator object while it is being iterated (and afterwards)
+pub struct PyAcgtLoop;
+impl Leg for PyAcgtLoop {
+    type Case = SeqCase;
+    const NAME: &'static str = "python-to-acgt-while-iterating";
+    fn strategy(_tier: Tier) -> BoxedStrategy<SeqCase> {
+        gen::k_strategy().prop_flat_map(|k| (gen::seq(k, 120, false), Just(k))).prop_map(|(seq, k)| SeqCase { seq: Bytes(seq), k }).boxed()
+    }
+    fn check(c: &SeqCase) -> Verdict {
+        let mut v = Verdict::new();
+        v.class("python");
+        let seq = super::c01::utf8_safe(&c.seq);
+        let (w, m) = (c.k.max(3), c.k.min(3).max(1));
+        v.nontrivial = !model::windows(&seq, c.k).is_empty() && seq.iter().any(|b| b"acgtuU".contains(b));
+        match crate::pyworker::ask(&serde_json::json!({"op": "acgt_loop", "k": c.k, "w": w, "m": m, "seq": crate::pyworker::hex(&seq)})) {
+            Err(e) => crate::pyworker::record_error(&mut v, e),
+            Ok(r) => {
+                let dec = |x: u64, k: usize| String::from_utf8(model::decode(x, k)).unwrap();
+                let rows = r["ok"]["kmers"].as_array().cloned().unwrap_or_default();
+                for (i, row) in rows.iter().enumerate() {
+                    let (f, rr) = (row[0].as_u64().unwrap_or(0), row[1].as_u64().unwrap_or(0));
+                    let (tf, tr) = (row[2].as_str().unwrap_or(""), row[3].as_str().unwrap_or(""));
+                    if tf != dec(f, c.k) || tr != dec(rr, c.k) {
+                        v.fail("python-to-acgt-while-iterating", format!("item {}: inside the loop to_acgt({}) = {:?} and to_acgt({}) = {:?}, the codes decode to {:?} and {:?} (k={})", i, f, tf, rr, tr, dec(f, c.k), dec(rr, c.k), c.k));
+                        return v;
+                    }
+                }
+                if let (Some(first), Some(after)) = (rows.first(), r["ok"]["after"].as_array()) {
+                    let (f, rr) = (first[0].as_u64().unwrap_or(0), first[1].as_u64().unwrap_or(0));
+                    if after.len() != 2 || after[0].as_str() != Some(&dec(f, c.k)) || after[1].as_str() != Some(&dec(rr, c.k)) {
+                        v.fail("python-to-acgt-after-iterating", format!("after the loop to_acgt gives {:?} for the first item's codes ({}, {}), k={}", after, f, rr, c.k));
+                        return v;
+                    }
+                }
+                for (i, row) in r["ok"]["mins"].as_array().cloned().unwrap_or_default().iter().enumerate() {
+                    let (x, t) = (row[0].as_u64().unwrap_or(0), row[1].as_str().unwrap_or(""));
+                    if t != dec(x, m) {
+                        v.fail("python-to-acgt-while-iterating", format!("minimiser run {}: inside the loop to_acgt({}) = {:?}, the code decodes to {:?} (m={})", i, x, t, dec(x, m), m));
+                        return v;
+                    }
+                }
+            }
+        }
+        v
+    }
+}
+
 pub fn run(ctx: &mut Ctx) {
+    let n = ctx.share(ctx.tier.pick(30_000, 600_000));
+    ctx.run_leg::<RawPairs>(n, false, 2000);
+    let n = ctx.share(ctx.tier.pick(12_000, 200_000));
+    ctx.run_leg::<PyAcgtLoop>(n, false, 500);
+
     let nc = ctx.share(ctx.tier.pick(800, 12_000));
     ctx.run_leg::<Cold>(nc, false, 40);
     super::coldstart::infra_inconclusive(ctx);
@@ -225,6 +316,8 @@ pub fn replay(leg: &str, case: &serde_json::Value) -> Option<Result<Verdict, Str
         "codes-exhaustive" | "codes-sampled" => Some(crate::engine::replay_leg::<Codes>(case)),
         "seq-symmetry" => Some(crate::engine::replay_leg::<Seqs>(case)),
         "python-to-acgt" => Some(crate::engine::replay_leg::<PyAcgt>(case)),
+        "raw-bytes-pairs" => Some(crate::engine::replay_leg::<RawPairs>(case)),
+        "python-to-acgt-while-iterating" => Some(crate::engine::replay_leg::<PyAcgtLoop>(case)),
         "cold-start-threads" => Some(crate::engine::replay_leg::<Cold>(case)),
         _ => None,
     }
